@@ -10,12 +10,17 @@
    arguments put in, as often as they occur in the body; phrase replacement
    changes nothing outside the replaced phrases (C13).  End to end the
    conservation is proved for documents without active characters
-   (C06_plain_prose_fixed_point).  Not proved: conservation by the expander
+   (C06_plain_prose_fixed_point).  Hidden text
+   (C03_skipped_regions_never_reach_the_expander): for every token list whose
+   LT-SKIP marks are paired, the pass in front of the expander hands on exactly
+   the tokens outside the regions, in order, without the marks, and leaves the
+   parser state alone.  Not proved: conservation by the expander
    for documents with markup (what each macro, environment and the maths
    parser keeps or hides); decided on the C03 stream by the marker-word
    oracle of harness/props/c03.py together with the correspondence run. *)
+From Coq Require Import String.
 From YV Require Import PyBase CharTables Token Utils Rpal PState Parser Exec Ml
-                       RpalProofs MlProofs ExpandSites ExecPlain ExecUnk ExecArgs Catalogue.
+                       RpalProofs MlProofs ExpandSites ExecPlain ExecUnk ExecArgs SkipProofs Scanner Catalogue.
 Open Scope Z_scope.
 
 (* (1) removal of pure action lines: the characters that are no white space
@@ -62,6 +67,29 @@ Proof.
                           (eq_refl true)).
 Qed.
 Print Assumptions C03_words_stay_markup_vanishes.
+
+(* (5) hidden text: `regions toks out` says that toks consists of stretches
+   without opening mark (kept) alternating with  opening mark, tokens without
+   closing mark, closing mark  (dropped); out is what is kept *)
+Theorem C03_skipped_regions_never_reach_the_expander : forall st latex toks out,
+  regions py_tables toks out ->
+  forall fuel, (length toks < fuel)%nat ->
+  skip_regions py_tables fuel st latex toks = (st, out).
+Proof. exact (skip_regions_spec py_tables). Qed.
+Print Assumptions C03_skipped_regions_never_reach_the_expander.
+
+Example C03_skip_example :
+  let src := s2l "a
+%%% LT-SKIP-BEGIN
+hidden \foo
+%%% LT-SKIP-END
+b" in
+  let toks := fst (scan (t_scan py_tables) src) in
+  map (fun t => (tk t, txt t))
+      (snd (skip_regions py_tables 100 (Exec.init_state py_tables (s2l "en") false false true)
+                         src toks))
+  = [(KText, [97]%N); (KSpace, [10]%N); (KText, [98]%N)].
+Proof. vm_compute. reflexivity. Qed.
 
 Example C03_nonvacuous : py_isspace c_nl = true /\
   E0 (ActionT 3) /\ E0 (TextT 0 [97]%N).
